@@ -113,14 +113,26 @@ impl Judge<'_> {
             }
             Ok(v) => {
                 if self.mode == Mode::Budget {
-                    let b_alloc = 4096 * self.l + (64 << 20);
+                    // allocation budget per kind of call (factor * L + constant):
+                    //  - opening / XML: the document, its DOM and the descriptors (measured < 40 L)
+                    //  - iterator steps: one packet of at most 64 KiB may legitimately expand to
+                    //    2^19 one-bit values held twice (~160 MiB), independent of L
+                    //  - blob extraction streams through a small buffer
+                    let (fac, cons): (u64, u64) = if name.contains("next()") || name.starts_with("pointcloud_") {
+                        (64, 192 << 20)
+                    } else if name == "blob" {
+                        (1, 1 << 20)
+                    } else {
+                        (64, 8 << 20)
+                    };
+                    let b_alloc = fac * self.l + cons;
                     let b_read = read_factor * self.l + (64 << 10);
                     self.worst_alloc = self.worst_alloc.max(alloc);
                     self.worst_read = self.worst_read.max(read);
                     if alloc > b_alloc || peak > b_alloc {
                         self.ctx.violation(
                             format!("C09/memory/{name}"),
-                            format!("{name} allocated {alloc} bytes (peak {peak}) in one call; budget 4096*L + 64 MiB = {b_alloc} for L = {} bytes; input: {}", self.l, self.what),
+                            format!("{name} allocated {alloc} bytes (peak {peak}) in one call; budget {fac}*L + {} MiB = {b_alloc} for L = {} bytes; input: {}", cons >> 20, self.l, self.what),
                         );
                         self.failed = true;
                     } else if read > b_read {
@@ -282,7 +294,7 @@ fn sweep(ctx: &Ctx, mode: Mode) {
         ctx.machinery_error(format!("seed {si} ({}) is empty / unreadable", sd.name));
         return;
     }
-    let mn = menu(&sd, si % 8 == 0 || si % 8 == 5);
+    let mn = menu(&sd, si % 4 == 0);
     // 0 = the unmutated seed
     let mi = ctx.pick("mutation", mn.len() + 1);
     let mut what = format!("seed {si} ({})", sd.name.chars().take(80).collect::<String>());
